@@ -1,16 +1,17 @@
 #!/usr/bin/env python3
 """Run every registered quick (or thorough) check sequentially; summary at the end."""
-import json, subprocess, sys, time
+import json, os, subprocess, sys, time
+ROOT = os.path.dirname(os.path.dirname(os.path.abspath(__file__)))
 tier = sys.argv[1] if len(sys.argv) > 1 else "quick"
 only = sys.argv[2:] 
-m = json.load(open("/verif/MANIFEST.json"))
+m = json.load(open(os.path.join(ROOT, "MANIFEST.json")))
 bad = []
 for c in m["checks"]:
     if only and c["property_id"] not in only:
         continue
     cmd = c["quick_cmd"] if tier == "quick" else c.get("thorough_cmd", c["quick_cmd"])
     t = time.time()
-    p = subprocess.run(cmd, shell=True, cwd="/verif", stdout=subprocess.PIPE, stderr=subprocess.STDOUT, text=True)
+    p = subprocess.run(cmd, shell=True, cwd=ROOT, stdout=subprocess.PIPE, stderr=subprocess.STDOUT, text=True)
     tail = [l for l in p.stdout.splitlines() if l.startswith(("VIOLATION", "KNOWN-FINDING", "["))]
     print(c["property_id"], "rc=%d" % p.returncode, "%.0fs" % (time.time() - t), " | ".join(tail[-3:]))
     if p.returncode != 0:
